@@ -189,7 +189,7 @@ package route
 //@ // getSchemas only returns rule lists parseMetric can use: every rule has a retention, none has interval 0, a catch-all exists
 //@ func getSchemas(file string) (s persister.WhisperSchemas, err error)
 //@   property C16,C14
-//@   modifies *
+//@   fresh
 //@   ensures[usable; C16,C14] err == nil ==> usableSchemas(s) && (forall k int :: 0 <= k && k < len(s) ==> s[k].Retentions[0].secondsPerPoint != 0)
 //@   loop 1:
 //@     invariant[idx] 0 <= #i && #i <= len(#s) && #s == schemas
@@ -277,17 +277,21 @@ package route
 //@ assume_pure sarama.New*, sarama.Config.*, (*sarama.Config).*, partitioner.*, aws.*, session.*, cloudwatch.*, util.AddrToPath
 //@ func NewPubSub(key string, matcher matcher.Matcher, project string, topic string, format string, codec string, bufSize int, flushMaxSize int, flushMaxWait int, blocking bool) (r Route, err error)
 //@   property C14
-//@   modifies *
+//@   fresh
+//@   modifies spawned("(*github.com/grafana/carbon-relay-ng/route.PubSub).run")
 //@   ensures[usable; C14] err == nil ==> typeIs(r, *PubSub) && as(r, *PubSub).flushMaxWait > 0 && as(r, *PubSub).flushMaxSize >= 0 && as(r, *PubSub).buf != nil
 //@ func NewCloudWatch(key string, matcher matcher.Matcher, awsProfile string, awsRegion string, awsNamespace string, awsDimensions [][]string, bufSize int, flushMaxSize int, flushMaxWait int, storageResolution int64, blocking bool) (r Route, err error)
 //@   property C14
-//@   modifies *
+//@   fresh
+//@   modifies spawned("(*github.com/grafana/carbon-relay-ng/route.CloudWatch).run"), allof("[]*cloudwatch.Dimension")
 //@   ensures[usable; C14] err == nil ==> typeIs(r, *CloudWatch) && as(r, *CloudWatch).flushMaxWait > 0 && as(r, *CloudWatch).buf != nil
 //@   loop 1:
 //@     invariant[wf] r != nil && r.flushMaxWait > 0 && r.buf != nil && bufSize >= 0
 //@ func NewKafkaMdm(key string, matcher matcher.Matcher, topic string, codec string, schemasFile string, partitionBy string, brokers []string, bufSize int, orgId int, flushMaxNum int, flushMaxWait int, timeout int, blocking bool, tlsEnabled bool, tlsSkipVerify bool, tlsClientCert string, tlsClientKey string, saslEnabled bool, saslMechanism string, saslUsername string, saslPassword string) (r Route, err error)
 //@   property C14
-//@   modifies *
+//@   merge_paths
+//@   fresh
+//@   modifies spawned("(*github.com/grafana/carbon-relay-ng/route.KafkaMdm).run")
 //@   ensures[usable; C14] err == nil ==> typeIs(r, *KafkaMdm) && as(r, *KafkaMdm).flushMaxWait > 0 && as(r, *KafkaMdm).flushMaxNum >= 0 && as(r, *KafkaMdm).buf != nil && usableSchemas(as(r, *KafkaMdm).schemas)
 
 // ---------------------------------------------------------------- grafanaNet: address validation and documented defaults (C14, C20)
@@ -298,7 +302,6 @@ package route
 //@ spec metricsEndpoint(a bytes) bool := bhasSuffix(a, "/metrics") || bhasSuffix(a, "/metrics/")
 //@ func NewGrafanaNetConfig(addr string, apiKey string, schemasFile string, aggregationFile string) (c GrafanaNetConfig, err error)
 //@   property C14,C20
-//@   modifies *
 //@   ensures[address_usable; C14] err == nil ==> metricsEndpoint(addr) && c.Addr == addr
 //@   ensures[required_options; C20] err == nil ==> c.ApiKey == apiKey && c.SchemasFile == schemasFile && c.AggregationFile == aggregationFile && apiKey != "" && schemasFile != "" && aggregationFile != ""
 //@   ensures[documented_defaults; C20] err == nil ==> c.BufSize == 10000000 && c.FlushMaxNum == 5000 && c.FlushMaxWait == 500000000 && c.Timeout == 10000000000 && c.Concurrency == 100 && c.OrgID == 1
@@ -312,8 +315,10 @@ package route
 //@ func NewGrafanaNet(key string, matcher matcher.Matcher, cfg GrafanaNetConfig) (r Route, err error)
 //@   property C14
 //@   requires metricsEndpoint(cfg.Addr)
-//@   modifies *
+//@   fresh
+//@   modifies spawned("(*github.com/grafana/carbon-relay-ng/route.GrafanaNet).run"), spawned("(*github.com/grafana/carbon-relay-ng/route.GrafanaNet).updateSchemas"), spawned("(*github.com/grafana/carbon-relay-ng/route.GrafanaNet).updateAggregation")
 //@   ensures[usable; C14] err == nil ==> r != nil
+//@   ensures[configuration_stored; C20] err == nil ==> typeIs(r, *GrafanaNet) && sameGnCfg(as(r, *GrafanaNet).Cfg, cfg) 
 //@   loop 1:
 //@     invariant[shards] 0 <= i && i <= cfg.Concurrency && cfg.Concurrency > 0 && cfg.BufSize >= 0 && r != nil && len(r.in) == cfg.Concurrency && r.wg != nil && r.shutdown != nil
 
@@ -365,3 +370,15 @@ package route
 //@   ensures[unlocked] !route.Mutex.held
 //@   ensures[appended; C18] len(routeDests(route)) == n + 1 && routeDests(route)[n] == dest && (forall j int :: 0 <= j && j < n ==> routeDests(route)[j] == old(d0[j]))
 //@   ensures[snapshot_immutable; C18] len(d0) == n && (forall j int :: 0 <= j && j < n ==> d0[j] == old(d0[j]))
+
+//@ func NewSendAllMatch(key string, matcher matcher.Matcher, destinations []*dest.Destination) (r Route, err error)
+//@   trusted
+//@   fresh
+//@   ensures err == nil ==> r != nil
+//@ func NewSendFirstMatch(key string, matcher matcher.Matcher, destinations []*dest.Destination) (r Route, err error)
+//@   trusted
+//@   fresh
+//@   ensures err == nil ==> r != nil
+//@ spec sameGnCfg(a GrafanaNetConfig, b GrafanaNetConfig) bool := a.Addr == b.Addr && a.ApiKey == b.ApiKey && a.SchemasFile == b.SchemasFile && a.AggregationFile == b.AggregationFile && a.BufSize == b.BufSize
+//@      && a.FlushMaxNum == b.FlushMaxNum && a.FlushMaxWait == b.FlushMaxWait && a.Timeout == b.Timeout && a.Concurrency == b.Concurrency && a.OrgID == b.OrgID && a.SSLVerify == b.SSLVerify
+//@      && a.Blocking == b.Blocking && a.Spool == b.Spool && a.ErrBackoffMin == b.ErrBackoffMin && a.ErrBackoffFactor == b.ErrBackoffFactor
